@@ -24,6 +24,19 @@ type UnitOp struct{}
 func (UnitOp) String() string  { return "=~" }
 func (UnitOp) Context() string { return "unit" }
 
+type c06PtrErr struct{}
+
+func (*c06PtrErr) Error() string { return "pointer-typed error" }
+
+// c06DeepCond nests n valid Conditions directly in one another.
+func c06DeepCond(n int) stackage.Condition {
+	cur := stackage.Cond("k0", stackage.Eq, "v")
+	for i := 1; i < n; i++ {
+		cur = stackage.Cond(fmt.Sprintf("k%d", i), stackage.Ne, cur)
+	}
+	return cur
+}
+
 type c06Model struct {
 	kw    string
 	op    stackage.Operator
@@ -55,7 +68,7 @@ func c06ExArgs() []c06Arg {
 	return []c06Arg{{`"v"`, "v"}, {`"w w"`, "w w"}, {`""`, ""}, {"nil", nil}, {"42", 42}, {"3.5", 3.5}, {"true", true},
 		{"Stack", stackage.And().Push("x", "y")}, {"AStack", AStack(stackage.Or().Push("z"))}, {"SStack", SStack(stackage.List().Push(1, 2))}, {"*AStack", &a},
 		{"Condition", stackage.Cond("ik", stackage.Lt, 5)}, {"Name(n)", Name("n")}, {"empty Stack", stackage.Not()},
-		{"(*Name)(nil)", (*Name)(nil)}, {"[]string{a}", []string{"a"}}, {"[]string{b,c}", []string{"b", "c"}}, {"map", map[string]int{"k": 1}}, {"struct{[]int}", struct{ L []int }{[]int{1}}}}
+		{"(*Name)(nil)", (*Name)(nil)}, {"25 Conditions nested in one another", c06DeepCond(25)}, {"[]string{a}", []string{"a"}}, {"[]string{b,c}", []string{"b", "c"}}, {"map", map[string]int{"k": 1}}, {"struct{[]int}", struct{ L []int }{[]int{1}}}}
 }
 
 func isStackVal(v any) bool {
@@ -145,6 +158,15 @@ func c06Misc(which int) c06Step {
 				m.err = nil
 			}
 			cd.SetErr(m.err)
+			return "", false
+		}}
+	case 5:
+		// an error value that is a nil pointer inside a non-nil interface (what a function declared to return *T hands
+		// back): Err() is non-nil, so expressions are refused like under any other error
+		return c06Step{"SetErr((*c06PtrErr)(nil))", func(cd *stackage.Condition, m *c06Model) (string, bool) {
+			var pe *c06PtrErr
+			m.err = pe
+			cd.SetErr(pe)
 			return "", false
 		}}
 	case 2:
@@ -336,7 +358,7 @@ func c06Run(c *core.Ctx, idx int) {
 			case 5, 6, 7:
 				steps = append(steps, c06SetEx(exs[r.Intn(len(exs))]))
 			default:
-				steps = append(steps, c06Misc(r.Intn(10)))
+				steps = append(steps, c06Misc(r.Intn(11)))
 			}
 		}
 		c.Count("histories.random")
